@@ -17,9 +17,9 @@ type rec struct {
 	Issued string `json:"issued"` // mgr: Deploy | Teardown | - (startDeploy / startTeardown called in this iteration)
 	IM     int    `json:"im"`     // mgr: manifest of the issued deploy
 	UM     int    `json:"um"`     // mgr(update): manifest received on updatech
-	Resv   bool   `json:"resv"`   // end: the inventory still holds a reservation
-	Hn     bool   `json:"hn"`     // end: the hostname service still holds the lease's hostnames
-	Obs    bool   `json:"obs"`    // end: observations were possible
+	Resv   bool   `json:"resv"`   // obs: the inventory still holds a reservation
+	Hn     bool   `json:"hn"`     // obs: the hostname service still holds the lease's hostnames
+	Obs    bool   `json:"obs"`    // obs: observations were possible
 	ID     int    `json:"id"`     // reset: script number
 	Pre    bool   `json:"pre"`    // reset: deployment pre-existing at service start
 	Script string `json:"script"` // reset: the stimuli, space separated (information only)
@@ -51,6 +51,9 @@ func fold(raws []raw) map[string][]rec {
 		case "H":
 			r := blank(x.K, "H", x.Seq)
 			r.M = x.M
+			if x.K == "obs" {
+				r.Resv, r.Hn, r.Obs = x.Runch, x.Err, x.R == "ok"
+			}
 			add(r)
 		case "N":
 			r := blank("hn_resolve", "N", x.Seq)
@@ -184,6 +187,7 @@ func linearize(th map[string][]rec, preexisting bool) ([]rec, int) {
 	var slots, begins, results, tdFailed int
 	var stopped, collected int
 	var svcShut, reqShut, lastExitRunch bool
+	given := map[int]bool{0: true} // manifests handed to a manager (created with / update routed)
 	if preexisting {
 		created = 1
 	}
@@ -200,6 +204,8 @@ func linearize(th map[string][]rec, preexisting bool) ([]rec, int) {
 			return svcShut
 		case "mgr_start":
 			return created >= mgrStart+1
+		case "hn_resolve": // run() submits the request; the service's manager-created emit races with it
+			return created >= hnRes+1
 		case "mgr":
 			switch r.Case {
 			case "update":
@@ -220,7 +226,8 @@ func linearize(th map[string][]rec, preexisting bool) ([]rec, int) {
 			}
 			return true
 		case "op_begin":
-			return slots >= begins+1
+			// data dependency: the op goroutine can only have read a manifest the manager had been given
+			return slots >= begins+1 && (r.C != "Deploy" || given[r.M])
 		}
 		return true
 	}
@@ -237,10 +244,12 @@ func linearize(th map[string][]rec, preexisting bool) ([]rec, int) {
 			switch r.Out {
 			case "update":
 				routedUpd++
+				given[r.M] = true
 			case "routed":
 				routedTd++
 			case "created":
 				created++
+				given[r.M] = true
 			}
 		case "svc_shutdown":
 			svcShut = true
